@@ -62,7 +62,7 @@ static MVal boundary_value(Rng& r, bool thorough) {
     }
     case 2: {
       // building a map of n members through obj[key] is quadratic: keep the 65535/65536 cases rare
-      size_t n = r.pick(cnt); if (n > 1000 && !(thorough && r.chance(1, 40))) n = r.pick(cnt) % 18;   // map16/map32 boundary (65535/65536 members) only in the thorough tier
+      size_t n = r.pick(cnt); if (n > 1000 && !(thorough && r.chance(1, 500))) n = r.pick(cnt) % 18;   // map16/map32 boundary (65535/65536 members) only in the thorough tier
       if (2 * n + 2 > kMaxSlots) n = kMaxSlots > 40 ? 17 : 2;
       MVal o = MVal::obj(); for (size_t i = 0; i < n; i++) o.o.emplace_back("k" + std::to_string(i), MVal::boolean(i & 1)); return o;
     }
